@@ -766,6 +766,42 @@ func c02Gen(r *Run) {
 		query(q)
 	}
 
+	// (4s) every SPELLING of a property reference (`x`, `$.x`, `_data.x`, `$._data.x`, `$a.x`,
+	// `$a._data.x`, the whole `_data` / `$a._data` map) read by every kind of reader, on a step whose
+	// data nothing else needs (an edge step followed by count / a move / render of ids only): the
+	// "what does a later statement need" analysis must see through each spelling
+	{
+		reset(graphs[0])
+		readers := func(f string) [][]c01Stmt {
+			return [][]c01Stmt{
+				{c02Has(c02C(f, "GTE", 0.0))}, {c02Has(c02C(f, "NEQ", "zz"))}, {{"hasKey": sl(f)}}, {{"distinct": sl(f)}},
+				{{"render": map[string]interface{}{"v": f}}},
+			}
+		}
+		tails := [][]c01Stmt{{{"count": ""}}, {{"out": sl()}, {"count": ""}}, {{"render": map[string]interface{}{"g": "_gid"}}}, {}}
+		for _, f := range []string{"x", "$.x", "_data.x", "$._data.x", "_data", "name", "_data.name", "_data.nested.k"} {
+			for _, pre := range [][]c01Stmt{{{"e": sl()}}, {{"v": sl()}, {"outE": sl()}}, {{"v": sl()}, {"inE": sl("k", "l")}}, {{"v": sl()}}} {
+				for _, rd := range readers(f) {
+					for _, tl := range tails {
+						r.Count("spelling")
+						query(c02Join(pre, rd, tl))
+					}
+				}
+			}
+		}
+		for _, f := range []string{"$a.x", "$a._data.x", "$a._data", "$a._data.name"} {
+			for _, pre := range [][]c01Stmt{{{"e": sl()}, {"as": "a"}, {"out": sl()}}, {{"v": sl()}, {"outE": sl()}, {"as": "a"}, {"out": sl()}, {"outE": sl()}},
+				{{"v": sl()}, {"as": "a"}, {"out": sl()}}} {
+				for _, rd := range readers(f) {
+					for _, tl := range tails[:2] {
+						r.Count("spelling")
+						query(c02Join(pre, rd, tl))
+					}
+				}
+			}
+		}
+	}
+
 	// (4a) start prefixes: V(), one or two steps that are NOT hoistable filters, then a filter the
 	// index rewrite would hoist if it (wrongly) looked through what stands between.  as/hasKey
 	// commute with the filter; distinct/limit/fields/out do not.
